@@ -361,7 +361,7 @@ class WorldDriver:
             try:
                 w.process(0.5)
             except Exception as exc:
-                if bogus and isinstance(exc, KeyError) and not ctx.failed_frame:
+                if bogus and isinstance(exc, KeyError):
                     # documented / pinned by the suite: the frame in which a
                     # never-existing id is collected may raise KeyError once
                     ctx.failed_frame = True
@@ -404,7 +404,12 @@ class WorldDriver:
             ctx.autos = 0
             ctx.hits['clear'] += 1
             if self.processors:
+                # the harness puts fresh processors back (part of the op)
                 ctx.procs.clear()
+                for klass in (RecProc, DelProc):
+                    proc = klass(ctx.log)
+                    w.add_processor(proc)
+                    ctx.procs[proc.label] = proc
 
         elif kind == 'disable':
             w.dispatch_enabled = False
